@@ -59,6 +59,9 @@ class Spec:
         self.inserts = []     # (anchor, [lines])
         self.substs = []
         self.sig = None       # full replacement of the signature text (rare)
+        self.nocanary = None
+        self.var_requires = {}
+        self.var_ensures = {}
         self.parse(open(path).read())
 
     def parse(self, text):
@@ -90,6 +93,9 @@ class Spec:
             elif s.startswith("@attr"):
                 self.attrs.append(s[len("@attr"):].strip())
                 cur = None
+            elif s.startswith("@nocanary"):
+                self.nocanary = s[len("@nocanary"):].strip() or "no reason given"
+                cur = None
             elif s.startswith("@sig"):
                 self.sig = s[len("@sig"):].strip()
                 cur = None
@@ -97,6 +103,10 @@ class Spec:
                 cur = self.requires
             elif s == "@ensures":
                 cur = self.ensures
+            elif re.match(r"@requires\[(\w+)\]$", s):
+                cur = self.var_requires.setdefault(re.match(r"@requires\[(\w+)\]$", s).group(1), [])
+            elif re.match(r"@ensures\[(\w+)\]$", s):
+                cur = self.var_ensures.setdefault(re.match(r"@ensures\[(\w+)\]$", s).group(1), [])
             elif s == "@decreases":
                 cur = self.decreases
             elif s == "@extra":
@@ -203,7 +213,7 @@ class Unit:
         return "\n".join(l for l, _ in self.lines) + "\n"
 
 
-def splice_function(u, spec, mode, canary=False):
+def splice_function(u, spec, mode, canary=False, variants=()):
     job = {"file": os.path.join(REPO, spec.file), "selector": spec.selector, "rules": spec.rules,
            "hints": spec.hints, "substs": spec.substs if mode == "prove" else
            [s for s in spec.substs if s["name"].startswith("sig")]}
@@ -275,53 +285,69 @@ def splice_function(u, spec, mode, canary=False):
         o = off - body_open
         new_body = new_body[:o] + s + new_body[o:]
 
-    contract = []
-    contract += clause_block("requires", spec.requires)
-    ens = list(spec.ensures)
-    if canary and mode == "prove":
-        ens = ens + ["false, // [CANARY.%s]" % spec.key]
-    contract += clause_block("ensures", ens)
-    contract += clause_block("decreases", spec.decreases)
-    for l in spec.extra:
-        contract.append("    " + l.strip())
-
-    # ---- emit
-    fn_start_line = len(u.lines) + 1
-    for a in spec.attrs:
-        u.emit(a, ("spec", spec.key))
-    if mode == "use":
-        u.emit("#[verifier::external_body]", ("spec", spec.key))
-    lm = line_map(r["orig"], r["start_line"], text)
-    head_lines = head.rstrip().split("\n")
-    nhead = len(head_lines)
-    for k, l in enumerate(head_lines):
-        u.emit(l, ("repo", spec.file, lm[k] if k < len(lm) else None))
-    for l in contract:
-        u.emit(l, ("spec", spec.key))
-        m = LABEL_RE.search(l)
-        if m:
-            u.labels[len(u.lines)] = m.group(1)
-    if mode == "use":
-        u.emit("{ unimplemented!() }", ("spec", spec.key))
-    else:
-        # map body lines: line k of body corresponds to text line (nhead-1+k) before inserts;
-        # inserts shift things, so recompute the map on the final body text
-        full = head + new_body
-        lm2 = line_map(r["orig"], r["start_line"], full)
-        body_lines = new_body.split("\n")
-        base = len(head.split("\n")) - 1
-        for k, l in enumerate(body_lines):
-            idx = base + k
-            u.emit(l, ("repo", spec.file, lm2[idx] if idx < len(lm2) else None))
+    def emit_copy(is_canary):
+        contract = []
+        req = list(spec.requires)
+        ens = list(spec.ensures)
+        for v in variants:
+            if v not in spec.var_requires and v not in spec.var_ensures:
+                raise ValueError("%s: unknown variant %s" % (spec.key, v))
+            req += spec.var_requires.get(v, [])
+            ens += spec.var_ensures.get(v, [])
+        contract += clause_block("requires", req)
+        if is_canary:
+            ens = ens + ["false, // [CANARY.%s]" % spec.key]
+        contract += clause_block("ensures", ens)
+        contract += clause_block("decreases", spec.decreases)
+        for l in spec.extra:
+            contract.append("    " + l.strip())
+        hd = head
+        if is_canary:
+            hd2 = re.sub(r"\bfn\s+%s\b" % re.escape(sig["name"]), "fn %s__canary" % sig["name"], hd, count=1)
+            if hd2 == hd:
+                raise LostAnchor("%s: cannot rename function for the canary copy" % spec.key)
+            hd = hd2
+        start_line = len(u.lines) + 1
+        for a in spec.attrs:
+            u.emit(a, ("spec", spec.key))
+        if mode == "use":
+            u.emit("#[verifier::external_body]", ("spec", spec.key))
+        lm = line_map(r["orig"], r["start_line"], text)
+        head_lines = hd.rstrip().split("\n")
+        for k, l in enumerate(head_lines):
+            u.emit(l, ("repo", spec.file, lm[k] if k < len(lm) else None))
+        for l in contract:
+            u.emit(l, ("spec", spec.key))
             m = LABEL_RE.search(l)
-            if m:
+            if m and (is_canary == m.group(1).startswith("CANARY.")):
                 u.labels[len(u.lines)] = m.group(1)
+        if mode == "use":
+            u.emit("{ unimplemented!() }", ("spec", spec.key))
+        else:
+            full = head + new_body
+            lm2 = line_map(r["orig"], r["start_line"], full)
+            body_lines = new_body.split("\n")
+            base = len(head.split("\n")) - 1
+            for k, l in enumerate(body_lines):
+                idx = base + k
+                u.emit(l, ("repo", spec.file, lm2[idx] if idx < len(lm2) else None))
+                m = LABEL_RE.search(l)
+                if m and not is_canary:
+                    u.labels[len(u.lines)] = m.group(1)
+        return start_line
+
+    fn_start_line = emit_copy(False)
+    fn_end_line = len(u.lines)
+    has_canary = False
+    if canary and mode == "prove" and not spec.nocanary:
+        emit_copy(True)
+        has_canary = True
     u.functions.append({
         "key": spec.key, "mode": mode, "file": spec.file, "selector": spec.selector,
         "name": sig["name"], "repo_line": r["start_line"],
         "sha256": hashlib.sha256(r["orig"].encode()).hexdigest(),
         "fired": r.get("fired", {}), "dropped_attrs": r.get("dropped_attrs", []),
-        "gen_lines": [fn_start_line, len(u.lines)],
+        "gen_lines": [fn_start_line, fn_end_line], "has_canary": has_canary, "nocanary": spec.nocanary,
         "n_requires": len(spec.requires), "n_ensures": len(spec.ensures),
         "n_loop_clauses": sum(len(v) for v in spec.loops.values()),
         "orig": r["orig"], "rewritten": text,
@@ -359,7 +385,7 @@ def _expand(u, path, canary):
         elif s.startswith("//@prove") or s.startswith("//@use"):
             mode = "prove" if s.startswith("//@prove") else "use"
             key = s.split()[1]
-            splice_function(u, load_spec(key), mode, canary)
+            splice_function(u, load_spec(key), mode, canary, tuple(s.split()[2:]))
         elif s.startswith("//@item"):
             m = re.match(r"//@item\s+(\S+)\s*::\s*([^|]+?)(?:\s*\|\s*(.*))?$", s)
             if not m:
@@ -370,6 +396,7 @@ def _expand(u, path, canary):
                 for sn in substs.split():
                     sp = load_spec(sn)
                     job["substs"] += sp.substs
+                    job["rules"] += sp.rules
             r = run_vx(job)
             lm = line_map(r["orig"], r["start_line"], r["text"])
             for k, l in enumerate(r["text"].split("\n")):
